@@ -37,7 +37,7 @@ def shapes_for(cfg):
 
 
 def budget(tier):
-    return {"workers": 16, "examples": 220 if tier == "quick" else 6000}
+    return {"workers": 16, "examples": 400 if tier == "quick" else 6000}
 
 
 def gen(d, tier):
